@@ -694,9 +694,10 @@ namespace bloch::runtime {
             auto fit = m_env[i].find(name);
             if (fit != m_env[i].end()) {
                 Value newVal = v;
-                if (fit->second.value.type == Value::Type::Object &&
-                    newVal.type == Value::Type::Object && newVal.objectValue &&
-                    !fit->second.value.className.empty()) {
+                // The slot keeps the class it was declared with, also while it holds null or
+                // has been emptied by 'destroy'.
+                if (!fit->second.value.className.empty() &&
+                    (newVal.type == Value::Type::Object || newVal.type == Value::Type::Void)) {
                     newVal.className = fit->second.value.className;
                 }
                 if (fit->second.value.type == Value::Type::Long &&
@@ -716,9 +717,8 @@ namespace bloch::runtime {
                 if (field && field->offset < thisObj->fields.size()) {
                     Value newVal = v;
                     const Value& existing = thisObj->fields[field->offset];
-                    if (existing.type == Value::Type::Object &&
-                        newVal.type == Value::Type::Object && newVal.objectValue &&
-                        !existing.className.empty()) {
+                    if (!existing.className.empty() &&
+                        (newVal.type == Value::Type::Object || newVal.type == Value::Type::Void)) {
                         newVal.className = existing.className;
                     }
                     if (existing.type == Value::Type::Long && newVal.type == Value::Type::Int) {
@@ -733,8 +733,8 @@ namespace bloch::runtime {
             if (field && owner && field->offset < owner->staticStorage.size()) {
                 Value newVal = v;
                 const Value& existing = owner->staticStorage[field->offset];
-                if (existing.type == Value::Type::Object && newVal.type == Value::Type::Object &&
-                    newVal.objectValue && !existing.className.empty()) {
+                if (!existing.className.empty() &&
+                    (newVal.type == Value::Type::Object || newVal.type == Value::Type::Void)) {
                     newVal.className = existing.className;
                 }
                 if (existing.type == Value::Type::Long && newVal.type == Value::Type::Int) {
